@@ -54,6 +54,7 @@ type c06Seen struct {
 	te                 []string
 	got                []byte
 	readAll            bool
+	rerr               error // error of a plain ReadAll of the whole body
 }
 
 func hdrEqual(a, b http.Header) (bool, string) {
@@ -199,7 +200,7 @@ func c06Replay(c *Ctx) {
 				s.got, _ = io.ReadAll(req.Body)
 				s.readAll = true
 			case a.Read == -1:
-				s.got, _ = io.ReadAll(req.Body)
+				s.got, s.rerr = io.ReadAll(req.Body)
 				s.readAll = true
 			case a.Read > 0:
 				buf := make([]byte, a.Read)
@@ -393,6 +394,10 @@ func c06Replay(c *Ctx) {
 			}
 			if len(s.te) != 0 {
 				c.Violation("length/transfer-encoding", sfmt("%s: handler saw TransferEncoding %v", where, s.te), desc)
+				return
+			}
+			if s.rerr != nil {
+				c.Violation("body/read-error", sfmt("%s: reading the whole body failed with %v after %d bytes", where, s.rerr, len(s.got)), desc)
 				return
 			}
 			if s.readAll {
